@@ -37,6 +37,8 @@ const UNI: &[&str] = &["\u{dc}n\u{ef}", "\u{540d}", "a\u{10400}b", "\u{3b1}\u{3b
 const DOCS: &[&str] = &["a comment", "two\nlines", "  leading spaces", "with # hash", "blank\n\nline inside", "tab-free \\ backslash x", "\u{e9}\u{e8} unicode",
 	"ends with a line break\n", "\nstarts with one", "\n", "blank lines at the end\n\n",
 	// a backslash in front of letters other than n (the format escapes line breaks only)
+	// spaces beyond ASCII inside a comment (no-break space, ideographic space, line separator, next line): characters like any other
+	"10\u{a0}km\u{3000}wide\u{2028}and\u{85}more",
 	"C:\\temp\\report.txt matches \\r?$", "\\0 \\u00e9 \\\\ \\"];
 
 pub fn pick<'a, T>(r: &mut StdRng, xs: &'a [T]) -> &'a T { xs.choose(r).expect("non-empty") }
